@@ -16,6 +16,15 @@ THEOREMS = [
     "TornadoModel.C08.witness_model",
     "TornadoModel.C08.witness_spec",
     "TornadoModel.C08.gzip_strict_refuted",
+    "TornadoModel.C08.step_append",
+    "TornadoModel.C08.feed_append",
+    "TornadoModel.C08.client_segmentation_independent",
+    "TornadoModel.C08.chunks_agree",
+    "TornadoModel.C08.body_agree",
+    "TornadoModel.C08.read_agree",
+    "TornadoModel.C08.client_agrees_with_spec",
+    "TornadoModel.C08.client_agrees_with_spec_gz",
+    "TornadoModel.C08.interim_sticky_refuted",
 ]
 TRUSTED = [
     "zlib/gzip are opaque: the streaming decompressor's output for the whole encoded body is an input of the model "
@@ -41,16 +50,19 @@ RULE = ("grammar of HTTP/1.x responses (status lines, header sets, CL/chunked/cl
 EXHAUSTIVE = {"quick": False, "thorough": False}
 CLAUSES = {
     "status line grammar": "statusLine_iff",
-    "delivered in any segmentation": "tie only: every generated stream is run in >= 3 segmentations (whole, 1-byte, random/CRLF-adjacent "
-                                     "cuts; thorough: every cut point of short streams) against Spec.readAll of the joined stream; "
-                                     "feed_append_goal / client_segmentation_independent_goal are stated, not proved; "
-                                     "step_shortens + drain_fuel (fuel sufficiency of the machine) are proved",
+    "delivered in any segmentation": "feed_append (two segments = their concatenation, from any machine state; via step_append: every "
+                                     "read is prefix stable) + client_segmentation_independent (run segs = run [segs.flatten], all "
+                                     "cfg / zlib oracle / eof); also exercised by the tie (>= 3 segmentations of every stream)",
     "returns the status, headers and body a strict reader extracts, or fails when that reader rejects":
-        "tie only (Spec.readAll is the oracle on every case; client_agrees_with_spec_goal stated); full statement refuted "
-        "for the code as it is by gzip_strict_refuted (truncated gzip member accepted: known finding)",
+        "client_agrees_with_spec (decompress_response off: run on the whole stream = Spec.readAll, all framings, 1xx chains, limits) + "
+        "client_agrees_with_spec_gz (decompress_response on, under the explicit decidable side conditions interimGz = false and "
+        "ZOk on the body handed to zlib); the side conditions are necessary: gzip_strict_refuted (truncated member accepted) and "
+        "interim_sticky_refuted (1xx Content-Encoding sticky) -- both known findings; with client_segmentation_independent this "
+        "covers every segmentation; Spec.readAll is also the oracle on every case",
     "body delivered (after decompression) never exceeds max_body_size": "client_body_le_limit (all framings, all segmentations; "
                                                                         "streamed prefixes of failed fetches: tie only)",
-    "1xx interim, 204/304, HEAD": "modelled in onHead/Spec.read; tie only",
+    "1xx interim, 204/304, HEAD": "covered by client_agrees_with_spec / client_agrees_with_spec_gz (Spec.read skips 1xx, "
+                                  "204/304/HEAD have no body) and by the tie",
 }
 PARALLEL = True
 CASE_TIMEOUT = int(os.environ.get("VERIF_CASE_TIMEOUT", "60"))   # wall-clock watchdog per case; generous because the box is shared (a case takes ~5 ms)
